@@ -16,6 +16,11 @@ try:
             continue
         meta = json.load(open(os.path.join(d, "meta.json")))
         pid = meta["property"]
+        if meta.get("obsolete"):
+            meta["recheck"] = {"repo_head": head, "result": "obsolete (see note)"}
+            json.dump(meta, open(os.path.join(d, "meta.json"), "w"), indent=1, ensure_ascii=False)
+            print("%-55s obsolete" % name, flush=True)
+            continue
         subprocess.run("git checkout -q -- . && git clean -fdq", shell=True, cwd=wt)
         a = subprocess.run(["git", "apply", os.path.join(d, "patch.diff")], cwd=wt, stderr=subprocess.PIPE)
         if a.returncode != 0:
